@@ -52,6 +52,68 @@ def core_defs_current(d: str) -> List[dict]:
     return viol
 
 
+SEQ = r"""
+import sys, os, json
+sys.path.insert(0, os.environ.get("VF_REPO", "/repo") + "/src"); sys.path.insert(0, "/verif")
+from vf import defs
+mode, rootA, outA, rootB, outB = sys.argv[1:6]
+if mode == "both":
+    e = defs.compile_all(rootA, outA, "gen", import_coredefs=False, combined=True)
+    if e is not None:
+        print("ERR A", repr(e)); sys.exit(3)
+e = defs.compile_all(rootB, outB, "gen", import_coredefs=False, combined=True)
+if e is not None:
+    print("ERR B", repr(e)); sys.exit(4)
+"""
+
+
+def two_closures_one_process(progs, d) -> List[dict]:
+    """closure A and then closure B (different names) compiled by ONE process: B's outputs must be byte-identical to B compiled alone"""
+    import re
+    viol = []
+    names = ["INNER", "MID", "A1", "A2", "K2", "BIG", "HALF", "INV", "SPAN", "GREETING", "MYHOST", "MYMOD", "SIG", "MSG_A", "MSG_B", "EXTRA_C",
+             "INDEP_C", "INDEP_S", "INDEP_M", "ALPHA_C", "ALPHA_M", "CONSTANT_WITH_A_NAME_THAT_GOES_PAST_COLUMN_FORTY_EIGHT",
+             "SIGNAL_WITH_A_NAME_THAT_GOES_PAST_COLUMN_FORTY_EIGHT", "K"]
+    pat = re.compile(r"\b(" + "|".join(names) + r")\b")
+
+    def materialise(p, prefix, root, idshift):
+        files = defprog.build(p)
+        out = {}
+        for rel, f in files.items():
+            txt = defs.yaml_text(f)
+            txt = pat.sub(lambda m: prefix + m.group(1), txt)
+            txt = re.sub(r"id: (\d+)", lambda m: "id: %d" % (int(m.group(1)) + idshift), txt)
+            txt = txt.replace("[1003, \"1005 - 1007\"]", "[%d]" % (1003 + idshift))
+            out[rel] = txt
+        defs.write_prog(out, root)
+        return os.path.join(root, "root.yaml")
+
+    for k in range(0, min(len(progs), 6), 2):
+        a, b = progs[k]["p"], progs[k + 1]["p"]
+        ra = materialise(a, "AA_", os.path.join(d, f"seq{k}", "a"), 0)
+        rb = materialise(b, "BB_", os.path.join(d, f"seq{k}", "b"), 300)
+        outs = {}
+        for mode in ("both", "alone"):
+            oa, ob = os.path.join(d, f"seq{k}", mode, "outA"), os.path.join(d, f"seq{k}", mode, "outB")
+            r = subprocess.run(["/venv/bin/python", "-c", SEQ, mode, ra, oa, rb, ob], capture_output=True, text=True, timeout=600,
+                               env=dict(os.environ, PYTHONHASHSEED="0"))
+            if r.returncode != 0:
+                viol.append({"signature": "C16/NonDeterministicOutput/second-closure-in-one-process-fails", "replay": {"mode": mode, "out": (r.stdout + r.stderr)[-600:]}})
+                break
+            outs[mode] = ob
+        else:
+            import filecmp
+            for fn in ("gen.py", "gen.h", "gen.js", "gen.m", "gen_combined.yaml"):
+                if not filecmp.cmp(os.path.join(outs["both"], fn), os.path.join(outs["alone"], fn), shallow=False):
+                    viol.append({"signature": f"C16/NonDeterministicOutput/{fn.split('.')[-1]}:depends-on-earlier-compile-in-process",
+                                 "replay": {"params_a": a, "params_b": b, "file": fn}})
+            p2, e2 = defs.parse(os.path.join(outs["both"], "gen_combined.yaml"), import_coredefs=False)
+            if e2 is not None:
+                viol.append({"signature": "C16/YamlRoundTrip/combined-of-second-closure-does-not-compile:" + type(e2).__name__,
+                             "replay": {"params_a": a, "params_b": b, "error": str(e2)[:300]}})
+    return viol
+
+
 def run(tier: str, seed: int) -> Dict[str, Any]:
     mc, progs = defprog.export_programs(tier)
     if tier == "quick":
@@ -92,6 +154,7 @@ def run(tier: str, seed: int) -> Dict[str, Any]:
     d = tempfile.mkdtemp(prefix="c16_")
     try:
         viol += core_defs_current(d)
+        viol += two_closures_one_process(progs, d)
     finally:
         shutil.rmtree(d, ignore_errors=True)
     uniq, seen = [], set()
